@@ -434,7 +434,7 @@ class UserError(Exception):
     """An ordinary exception raised by user code inside the with-body."""
 
 
-MAX_CRASH_POINTS = 1200
+MAX_CRASH_POINTS = 300
 
 
 class C15B(EngineBase):
@@ -809,7 +809,15 @@ class C15B(EngineBase):
             if "crash_n" not in cfg:
                 cfg["crash_n"] = 1 + int(cfg["crash"] * total)
             points = [cfg["crash_n"]]
+        import time as _time
+        t_enum = _time.time()
         for n in points:
+            if cfg.get("all_points") and _time.time() - t_enum > 120:
+                # (thorough tier only) a scenario whose body is heavy numerical
+                # work: the enumeration stops rather than approach the per-run
+                # watchdog; the points not reached are counted
+                st.stats["oracle.crash_points_time_capped_runs"] += 1
+                break
             _, fired, checks, exc = self._one(st, n)
             if fired is not None:
                 st.stats["fault.crash_in_body"] += 1
